@@ -11,7 +11,7 @@ import (
 //                prefix variants {exact, -1, +1, +2, 0, ffff}
 //   Certificate: {00,01,02,03,04,05,ff}, L<=6 (thorough 7)
 //   I2PString:   {00,01,02,'a',ff}, L<=5 (thorough 6)
-func byteWalk(r *core.Run, visit func(worker int, family string, b []byte)) {
+func byteWalk(r *core.Run, depthDelta int, visit func(worker int, family string, b []byte)) {
 	type spec struct {
 		fam   string
 		alpha []byte
@@ -28,9 +28,9 @@ func byteWalk(r *core.Run, visit func(worker int, family string, b []byte)) {
 			emit(append(refmodel.BE(uint64(sz), 2), body...))
 		}
 	}
-	d := 0
+	d := depthDelta
 	if !r.Quick() {
-		d = 1
+		d++
 	}
 	specs := []spec{
 		{"Mapping", []byte{0x00, 0x01, 0x02, 0x05, '=', ';', 'a', 0xff}, 6 + d, mapWrap},
